@@ -2,6 +2,7 @@ import Pbc.Extract.Dispatch
 import Pbc.Model.Unpack
 import Pbc.Model.Check
 import Pbc.Model.Buf
+import Pbc.Model.HeapUnpack
 /-
   Line-protocol driver: reads the same case file as harness/pbc_harness.c, evaluates the
   Lean model (and the extracted leaves), prints one canonical line per operation.
@@ -184,7 +185,42 @@ def runOp (S : Schema) (op : String) : PM String := do
     let b := packMsg S m
     let ch := chunksMsg S m
     return s!"size={sizeMsg S m} packret={b.length} bufret={(ch.map List.length).sum} guard=1 same=1 pack={hexOfBytes b} buf={hexOfBytes ch.flatten} chunks={commaList (ch.map List.length)}"
-  | "unpack" | "unpackf" =>
+  | "unpackf" =>
+    let ty ← tokNat
+    let x ← tok
+    let b := bytesOfHex (x.drop 1).toString
+    let mask ← tok
+    let tail ← tokNat
+    let bits := if mask == "-" then #[] else mask.toList.toArray.map (· == '1')
+    let σ : Nat → Bool := fun k => if k < bits.size then bits[k]! else tail == 1
+    let (r, h) := unpackH S σ ty b
+    let (out, h2) := match r with
+      | none => ("fail", h)
+      | some m => ("ok " ++ dumpMsg S (eraseMsg m), freeMsg S m h)
+    let refused := (h2.log.filter fun | .refuse _ => true | _ => false).length
+    let tr := h2.log.map fun
+      | .alloc id sz => s!" a{id}:{sz}"
+      | .refuse sz => s!" r{sz}"
+      | .free id => s!" f{id}"
+    let live := match liveAfter h2.log [] with | some l => toString l.length | none => "double-free"
+    -- the heap view must agree with the pure view when nothing is refused
+    let chk := if refused == 0 then
+        (match r, unpack S ty b with
+         | none, none => ""
+         | some m, some m2 => if dumpMsg S (eraseMsg m) == dumpMsg S m2 then "" else " ERASE-MISMATCH"
+         | _, _ => " ERASE-MISMATCH")
+      else ""
+    return s!"{out} live={live} foreign=0 sysmalloc=0 refused={refused} trace={String.join tr}{chk}"
+  | "unpacksys" =>
+    let ty ← tokNat
+    let x ← tok
+    let b := bytesOfHex (x.drop 1).toString
+    let (r, h) := unpackH S (fun _ => false) ty b
+    let allocs := (h.log.filter fun | .alloc _ _ => true | _ => false).length
+    let h2 := match r with | some m => freeMsg S m h | none => h
+    let frees := (h2.log.filter fun | .free _ => true | _ => false).length
+    return s!"{if r.isSome then "ok" else "fail"} sysmalloc={allocs} sysfree={frees} custom_calls=0"
+  | "unpack" =>
     let ty ← tokNat
     let x ← tok
     let b := bytesOfHex (x.drop 1).toString
